@@ -177,9 +177,9 @@ fn strategy(cap: usize, long: bool) -> BoxedStrategy<Case> {
         .prop_flat_map(move |k| cfg_for(k, cap, multiplier_any()))
         .prop_flat_map(move |cfg| {
             let n = flush_len(&cfg);
-            (Just(cfg), history_strategy(n, long), vec(inp_finite(), (n + 2)..=(3 * n + 5)), 0usize..8, prop_oneof![6 => Just(1.0f64), 1 => Just(1e-3), 1 => Just(1e-9), 1 => Just(-1.0), 1 => Just(0.0), 1 => Just(-1e-4)])
+            (Just(cfg), history_strategy(n, long), vec(inp_finite(), (n + 2)..=(3 * n + 5)), 0usize..8, prop_oneof![6 => Just(1.0f64), 1 => Just(1e-3), 1 => Just(1e-9), 1 => Just(-1.0), 1 => Just(0.0), 1 => Just(-1e-4)], (0usize..48, 1usize..4, any::<bool>()))
         })
-        .prop_map(|(cfg, history, mut continuation, flat, unit)| {
+        .prop_map(|(cfg, history, mut continuation, flat, unit, (magic, mlen, mscalar))| {
             // the continuation in another unit or sign than the history (and than any constant a reset may
             // re-install): the first comparison after the reset must use the constructor's reference value
             if unit != 1.0 {
@@ -213,6 +213,17 @@ fn strategy(cap: usize, long: bool) -> BoxedStrategy<Case> {
                 let f = continuation[k].clone();
                 for c in continuation.iter_mut().skip(k) {
                     *c = f.clone();
+                }
+            }
+            // the continuation opens with a "round" constant: a reset() that re-installs 0, 1, a seed or a neutral
+            // output value in some cell instead of the constructor's marker is visible only when the first input
+            // after the reset equals (or is ordered in one particular way against) exactly that constant
+            const MAGIC: [f64; 12] = [0.0, -0.0, 1.0, -1.0, 0.1, 0.5, 2.0, 10.0, 50.0, 100.0, f64::MIN_POSITIVE, f64::EPSILON];
+            if magic < MAGIC.len() {
+                for c in continuation.iter_mut().take(mlen) {
+                    let v = MAGIC[magic];
+                    c.bar = RawBar { o: v, h: v, l: v, c: v, v: c.bar.v };
+                    c.scalar = mscalar;
                 }
             }
             Case { cfg, history, continuation }
